@@ -149,13 +149,14 @@ impl<'i, 's> LexWith<'i, &FilterParser<'s>> for FunctionCallArgExpr {
             {
                 return LogicalExpr::lex_with(input, parser)
                     .map(|(lhs, input)| (FunctionCallArgExpr::Logical(lhs), input));
-            } else if c_is_field!(c)
-                || (c_is_field_or_int!(c) && c2.is_some() && c_is_field!(c2.unwrap()))
-                || (c_is_field_or_int!(c)
-                    && c2.is_some()
-                    && c_is_field_or_int!(c2.unwrap())
-                    && c3.is_some()
-                    && c_is_field!(c3.unwrap()))
+            } else if !input.starts_with("0x")
+                && (c_is_field!(c)
+                    || (c_is_field_or_int!(c) && c2.is_some() && c_is_field!(c2.unwrap()))
+                    || (c_is_field_or_int!(c)
+                        && c2.is_some()
+                        && c_is_field_or_int!(c2.unwrap())
+                        && c3.is_some()
+                        && c_is_field!(c3.unwrap())))
             {
                 let (lhs, input) = IndexExpr::lex_with(input, parser)?;
                 let lookahead = skip_space(input);
